@@ -28,7 +28,7 @@ LEVEL_TEXT = (
 LEVEL_NOTE = "The response stream is consumed sequentially (one __anext__ at a time), as `async for` does. Virtual loop owns scheduling; timers are not used by the library."
 DESIGN_REF = "DESIGN.md section 6, C17"
 RULE = (
-    "case = (selection, resolver styles, stream length 0..n, source mode, subscription resolver kind, failure placement on <=2 (event,path)); "
+    "case = (selection, resolver styles, stream length 0..n, source mode, subscription resolver kind, failure placement on <=2 (event,path); plus consumers that keep pulling after an event failed as a whole: field error + unexpected exception in one event); "
     "evaluation = one complete consumption of the stream compared event by event; non-trivial = distinct (case, schedule) with >= 2 events"
 )
 ASSUMPTIONS = ["sequential consumption of the response stream", "events are the root values; the subscription field is resolved from them by its ordinary resolver"]
